@@ -445,6 +445,9 @@ func (g *gen) form() string {
 	if g.r.chance(1, 3) {
 		return "json"
 	}
+	if g.r.chance(1, 4) {
+		return "repre"
+	}
 	return "pre"
 }
 
